@@ -135,6 +135,14 @@ def run(repo, tier):
     out += accept_rule(repo, "randomize", lambda ai, st: [ge(Lin.atom("start"), 0), ge(Lin.atom("end"), Lin.atom("start") + 1),
                                                        ge(Lin.atom("X.shape[-1]"), Lin.atom("end"))])
 
+    # spacing values 0 <= l < L are accepted by multisubstitute's own validation loop
+    def _sp_valid(ai, st):
+        l = Lin.atom(st.sver.get("l", "l"))
+        return [ge(l, 0), ge(Lin.atom("X.shape[-1]"), l + 1)]
+    out += accept_rule(repo, "multisubstitute", _sp_valid, extra_names=frozenset({"l"}), require_names={"l"},
+                       what="every spacing 0 <= l < L is accepted by the validation loop")
+    out += randomize_layout(repo)
+
     # ---------------------------------------------------------------- purity
     for fname, params in (("substitute", ["X", "motif"]), ("insert", ["X", "motif"]), ("delete", ["X"]),
                           ("multisubstitute", ["X", "motifs", "spacing"]), ("randomize", ["X", "probs"])):
@@ -215,23 +223,29 @@ def cat_composition(fi, ai, kinds):
     return [decide_states(ai, fi, ret, mk, "R-LEN", role)]
 
 
-def accept_rule(repo, fname, valid, module=ERSATZ, rule="R-ACCEPT"):
+def accept_rule(repo, fname, valid, module=ERSATZ, rule="R-ACCEPT", extra_names=frozenset(), int_arrays=(), require_names=None, what=None):
     """no range guard rejects a position / span that lies wholly inside the sequence: for every `raise` whose guard mentions the
     position parameters, (path constraints and 'wholly inside') must be contradictory"""
     from ..affine import consistent_model, cone, SearchLimit, _infeasible
     fi = repo.func(module + "." + fname)
-    ai = AbsInt(fi, int_params={"start", "end", "n"})
+    ai = AbsInt(fi, int_params={"start", "end", "n"} | set(extra_names), int_arrays=int_arrays)
     pm = {}
     for n in ast.walk(fi.node):
         for c in ast.iter_child_nodes(n):
             pm[c] = n
-    role = "every position / span lying wholly inside the sequence is accepted (no over-rejecting range guard)"
+    role = what or "every position / span lying wholly inside the sequence is accepted (no over-rejecting range guard)"
     n_r = 0
     for rz, st in ai.raises:
         g = rz
         while g in pm and not isinstance(g, ast.If):
             g = pm[g]
-        if not isinstance(g, ast.If) or not ({"start", "end"} & {x.id for x in ast.walk(g.test) if isinstance(x, ast.Name)}):
+        if not isinstance(g, ast.If):
+            continue
+        names = {x.id for x in ast.walk(g.test) if isinstance(x, ast.Name)}
+        if require_names is not None:
+            if not (set(require_names) & names):
+                continue
+        elif not ({"start", "end"} & names) and ".shape[-1]" not in unparse(g.test) and not (extra_names & names):
             continue
         n_r += 1
         st = st.copy()
@@ -252,6 +266,34 @@ def accept_rule(repo, fname, valid, module=ERSATZ, rule="R-ACCEPT"):
     if n_r == 0:
         return [unrecognised(rule, fi, role, "no range guard found")]
     return [holds(rule, fi, role, "%d raising range-guard path(s), each contradicts 'wholly inside'" % n_r, fi.node)]
+
+
+def randomize_layout(repo):
+    from ..axes import chain, apply_perm, PERMUTERS
+    fi = repo.func(ERSATZ + ".randomize")
+    role = "randomize returns n independent randomisations per example, laid out [example, n, alphabet, position]"
+    loops = [n for n in fi.node.body if isinstance(n, ast.For)]
+    rets = [n for n in walk_no_nested(fi.node) if isinstance(n, ast.Return)]
+    if not loops or not rets:
+        return [unrecognised("R-AXES", fi, role, "loop / return not found")]
+    l = loops[-1]
+    if unparse(l.iter) != "range(n)":
+        return [violation("R-AXES", fi, role, "loop runs over `%s`, not range(n)" % unparse(l.iter), l)]
+    apps = [s for s in l.body if isinstance(s, ast.Expr) and unparse(s.value).startswith("X_rands.append(")]
+    if len(apps) != 1:
+        return [violation("R-AXES", fi, role, "each iteration must append exactly one randomisation", l)]
+    base, ops = chain(rets[-1].value)
+    lab = ["n", "N", "A", "L"]
+    if isinstance(base, ast.Call) and const_value(kwarg(base, "dim", 1)) == 1:
+        lab = ["N", "n", "A", "L"]
+    for m, c in ops:
+        if m in PERMUTERS:
+            lab = apply_perm(lab, m, c)
+            if lab is None:
+                return [unrecognised("R-AXES", fi, role, "cannot interpret .%s" % m)]
+    if lab != ["N", "n", "A", "L"]:
+        return [violation("R-AXES", fi, role, "layout is %s" % lab, rets[-1])]
+    return [holds("R-AXES", fi, role, unparse(rets[-1].value)[:70], rets[-1])]
 
 
 def calls_to(fi, name):
